@@ -1,5 +1,46 @@
-# C50 - command-line splitting inverts quoting: BOUNDED stand-in only (bounded/C50.py), labelled exploration, never counted as proved.
-# The splitter is a four-class state machine with dynamic dispatch and a push-back iterator; its top-level law needs an induction over
-# the quoted string that is not worth the trusted encodings it would require.
+# C50 - command-line splitting inverts quoting. The property as a whole (split(quote(args)) == args) is decided by the bounded stand-in
+# (bounded/C50.py, labelled exploration): the splitter is a four-class state machine with dynamic dispatch and a push-back iterator.
+# One conjunct is proved: the backslash rule (_Backslash.process / finish), which is what makes quoting invertible:
+#   2N backslashes before a quote character give N backslashes and the quote is handed back to the enclosing state;
+#   2N+1 backslashes before a quote give N backslashes and a literal quote; N backslashes before anything else stay N backslashes.
 LEVEL = "exploration"
-undecided("everything: no obligation is discharged deductively for this property; see bounded/C50.py for the stated bounds")
+ghost(pushed=Seq(STR))         # what was pushed back onto the input, in order
+CTX = cls("Splitter", fields={"token": Seq(STR), "allowed_quote_chars": STR, "seq": ANY, "quoted": BOOL})
+STATE = Opaque("State")
+always_truthy(STATE, "state objects define neither __bool__ nor __len__")
+BS = cls("_Backslash", fields={"exit_state": STATE, "count": INT})
+assumed("context.seq.pushback", result=NONE, no_raise=True, modifies=["g.pushed"],
+        ensures=lambda c: c.g.pushed == c.old.g.pushed + lift([c.args[0]], Seq(STR)), note="_PushbackSequence.pushback: the character is read again next")
+B = "breezy/cmdline.py::_Backslash."
+BSL = lift("\\")
+
+
+def is_quote(c, ch):
+    return In(ch, c.old.context.allowed_quote_chars)
+
+
+target(B + "process", params=dict(next_char=STR, context=CTX), modifies=["self.count", "context.token", "g.pushed"],
+       requires=lambda c: And(Len(c.next_char) == 1, c.self.count >= 0),
+       ensures={"the_backslash_rule": lambda c: If(
+           c.old.next_char == BSL,
+           And(c.self.count == c.old.self.count + 1, c.context.token == c.old.context.token, c.g.pushed == c.old.g.pushed),
+           If(is_quote(c, c.old.next_char),
+              And(c.self.count == 0,
+                  If(c.old.self.count % 2 == 1,
+                     And(c.context.token == c.old.context.token + lift([Rep(BSL, c.old.self.count // 2)], Seq(STR)) + lift([c.old.next_char], Seq(STR)),
+                         c.g.pushed == c.old.g.pushed),
+                     And(c.context.token == c.old.context.token + lift([Rep(BSL, c.old.self.count // 2)], Seq(STR)),
+                         c.g.pushed == c.old.g.pushed + lift([c.old.next_char], Seq(STR))))),
+              And(c.self.count == 0, c.g.pushed == c.old.g.pushed + lift([c.old.next_char], Seq(STR)),
+                  c.context.token == If(c.old.self.count > 0, c.old.context.token + lift([Rep(BSL, c.old.self.count)], Seq(STR)), c.old.context.token))))},
+       raises={}, canary=lambda c: c.self.count == 0,
+       equivalent_mutants={r"retnone": "WHICH state object is returned is not part of this contract (the result is the object itself or its exit state: "
+                                       "two different sorts); the dispatch is decided by the bounded part"},
+       note="2N backslashes + quote -> N backslashes, quote re-read; 2N+1 + quote -> N backslashes and a literal quote; otherwise N stay N")
+target(B + "finish", params=dict(context=CTX), modifies=["context.token"],
+       ensures={"trailing_backslashes_are_kept": lambda c: c.context.token == If(
+           c.self.count > 0, c.old.context.token + lift([Rep(BSL, c.self.count)], Seq(STR)), c.old.context.token)},
+       raises={}, canary=lambda c: c.context.token == c.old.context.token)
+
+undecided("the other states (_Whitespace, _Quotes, _Word), the dispatch loop of Splitter._get_token and the top-level law "
+          "split(quote(args)) == args: bounded stand-in only (bounded/C50.py)")
